@@ -51,6 +51,24 @@ static long long clampi(uint64_t v) { return v > 0x7fffffffull ? 0x7fffffffll : 
 
 struct Copy { bool need; long long n; uint32_t flags; };
 
+// Section::name() as a C string, read with a bound (the name array holds 36 characters).
+static std::string cname(const Section* s) { return std::string(s->name(), strnlen(s->name(), Globals::kMaxSectionNameSize + 1)); }
+
+// Make malloc hand out memory that is not zero: the CodeHolder's arena blocks are not cleared either.
+static void dirty_heap() {
+  static const size_t sizes[] = {64, 600, 4096, 16384, 16384 + 64, 32768, 65536 + 64, 131072};
+  std::vector<void*> big, fence;
+  for (int rep = 0; rep < 6; rep++)
+    for (size_t sz : sizes) {
+      void* p = malloc(sz);
+      if (p) { memset(p, 0xA5, sz); big.push_back(p); }
+      fence.push_back(malloc(24));
+    }
+  for (void* p : big) free(p);
+  static std::vector<void*> keep;                  // the fences stay allocated so that the chunks are not merged away
+  keep.insert(keep.end(), fence.begin(), fence.end());
+}
+
 struct Exec {
   FILE* out;
   CodeHolder code;
@@ -58,12 +76,14 @@ struct Exec {
   vj::W w;
   bool dead = false;
 
+  std::vector<std::string> names;
+
   Exec(FILE* f, unsigned salt, unsigned seccopies) : out(f) {
     Environment env(Arch::kX64);
     code.init(env);
     code.attach(&a);
     Section* t = code.text_section();
-    w.beginObj().kv("e", "Reset").kv("salt", (long long)salt).kv("seccopies", (long long)seccopies).key("text").beginObj().kv("order", (long long)t->order()).kv("align", (long long)t->alignment())
+    w.beginObj().kv("e", "Reset").kv("salt", (long long)salt).kv("seccopies", (long long)seccopies).key("text").beginObj().kv("name", cname(t)).kv("order", (long long)t->order()).kv("align", (long long)t->alignment())
      .kv("off", off_of(t)).endObj().endObj().emit(out);
   }
 
@@ -71,7 +91,19 @@ struct Exec {
     Section* s = nullptr;
     Error err = code.new_section(Out(s), name.c_str(), name.size(), SectionFlags::kNone, align, order);
     w.beginObj().kv("e", "New").kv("name", name).kv("nlen", (long long)name.size()).kv("order", (long long)order).kv("align", (long long)align)
-     .kv("r", err_name(err)).kv("id", s ? (long long)s->section_id() : -1).kv("count", (long long)code.section_count()).endObj().emit(out);
+     .kv("r", err_name(err)).kv("id", s ? (long long)s->section_id() : -1).kv("count", (long long)code.section_count())
+     .kv("rname", s ? cname(s) : std::string()).endObj().emit(out);
+    if (s) {
+      names.push_back(name);
+      lookup(name);
+      if (!name.empty()) lookup(name.substr(0, name.size() - 1));                    // proper prefix
+      if (name.size() < Globals::kMaxSectionNameSize) lookup(name + "x");            // extension
+    }
+  }
+
+  void lookup(const std::string& q) {
+    Section* s = code.section_by_name(q.c_str(), q.size());
+    w.beginObj().kv("e", "Lookup").kv("name", q).kv("id", s ? (long long)s->section_id() : -1).endObj().emit(out);
   }
 
   // n marker bytes: head, middle..., tail - distinct per section, never 0 and never kU
@@ -117,9 +149,10 @@ struct Exec {
     w.beginObj().kv("e", "Far").kv("id", (long long)id).kv("t", (long long)(target % 5)).kv("call", call);
     rle(w, "rle", s->data() + before, after - before);
     w.kv("buf", (long long)after);
-    w.key("at").beginObj().kv("id", (long long)at->section_id()).kv("align", (long long)at->alignment()).kv("order", (long long)at->order())
+    w.key("at").beginObj().kv("id", (long long)at->section_id()).kv("name", cname(at)).kv("align", (long long)at->alignment()).kv("order", (long long)at->order())
      .kv("vsize", clampi(at->virtual_size())).kv("buf", (long long)at->buffer_size()).endObj();
     w.endObj().emit(out);
+    lookup(".addrtab");
   }
 
   void table(const char* key, bool with_data) {
@@ -208,6 +241,8 @@ struct Exec {
   }
 
   void tail(const std::vector<Copy>& copies, unsigned seccopies, unsigned salt) {
+    lookup(".text");
+    for (size_t i = 0; i < names.size() && i < 4; i++) lookup(names[(salt + i) % names.size()]);   // after everything else was created
     code_size();                              // estimate before flatten
     flatten("Flatten");
     size_t need = code.code_size();
@@ -268,7 +303,9 @@ int main(int argc, char** argv) {
     FILE* out = fopen(argv[3], "w");
     vj::install_abort_handlers(out);
     unsigned n = 0;
+    dirty_heap();
     for (auto& s : scripts) {
+      if (n % 64 == 63) dirty_heap();
       unsigned sc = s.has("seccopies") ? (unsigned)s["seccopies"].i() : 2;
       unsigned salt = s.has("salt") ? (unsigned)s["salt"].i() : n;
       Exec ex(out, salt, sc);
@@ -295,7 +332,9 @@ int main(int argc, char** argv) {
     unsigned nexec = (unsigned)atoi(argv[3]);
     vj::Rng r(vj::env_seed());
     static const int32_t orders[] = { std::numeric_limits<int32_t>::min(), -100, -5, -1, -1, 0, 0, 0, 1, 1, 2, 7, 1000, std::numeric_limits<int32_t>::max(), std::numeric_limits<int32_t>::max() };
+    dirty_heap();
     for (unsigned x = 0; x < nexec; x++) {
+      if (x % 64 == 63) dirty_heap();
       unsigned salt = (unsigned)r.below(1000);
       Exec ex(out, salt, 2);
       std::vector<std::string> used;
